@@ -5,13 +5,19 @@
 -/
 import LW.Driver.Common
 import LW.Driver.Circuit
+import LW.Driver.Fock
+import LW.Driver.C18
+import LW.Driver.C17
 
 open Lean LW.Driver
 
 /-- protocol handlers by request name; one entry per handler module (LW/Driver/*.lean) -/
 def handlers : List (String × (Json → R Json)) :=
   [("ping", fun _ => pure (Json.str "pong")),
-   ("circ", handleCirc)]
+   ("circ", handleCirc),
+   ("fock", handleFock),
+   ("sv", handleC18),
+   ("res", handleC17)]
 
 def dispatch (req : Json) : R Json := do
   let op ← asStr (← fld req "op")
